@@ -13,13 +13,16 @@ pub fn expand(input: &DeriveInput, trait_name: &str) -> TokenStream {
     let generics = add_extra_ty_param_bound_op(&input.generics, &trait_ident);
     let (impl_generics, ty_generics, where_clause) = generics.split_for_impl();
 
+    let method = quote! { derive_more::core::ops::#trait_ident::#method_ident };
+    let lhs_ref = quote! { &mut };
+
     let exprs = match input.data {
         Data::Struct(ref data_struct) => match data_struct.fields {
             Fields::Unnamed(ref fields) => {
-                tuple_exprs(&unnamed_to_vec(fields), &method_ident)
+                tuple_exprs(&unnamed_to_vec(fields), &method, &lhs_ref)
             }
             Fields::Named(ref fields) => {
-                struct_exprs(&named_to_vec(fields), &method_ident)
+                struct_exprs(&named_to_vec(fields), &method, &lhs_ref)
             }
             _ => panic!("Unit structs cannot use derive({trait_name})"),
         },
